@@ -985,6 +985,15 @@ static void run_overlap_case(const desc_t *d, const ovl_t *o, long idx) {
             snprintf(obs, sizeof obs, "result length %zu, dmax %zu, dest[%zu]=%#x, delta=%ld", len, dm, i, getel(D, i, ew), o->delta);
             snprintf(what, sizeof what, "%s succeeds but stale data remains behind the terminator (operands inside one object): %s", d->name, obs); witness_ovl(d, o, idx, obs); report("C08", key, what, g_wit); break; }
     }
+    /* K.3.7.1.1 (memcpy_s) and its sized variants: "copying shall not take place between objects that overlap", the objects being
+       dest[0..dmax) and src[0..n): an overlap of the objects alone (zone C) is a violation that has to be reported (C05) */
+    if (d->fam == FAM_MEMCPY && !obj_disjoint && !wr_rd_meet && o->delta != 0 && fits && want("C05")) {
+        if (success || g_h.count != 1) {
+            snprintf(key, sizeof key, "%s|ovl|R7-overlap-of-objects-not-reported|%s|%s", d->name, o->delta < 0 ? "src-below" : "src-above", o->bos ? "bos=exact" : "bos=unknown");
+            snprintf(obs, sizeof obs, "ret=%s handler calls %d; dest[0..%zu) and src[%ld..%ld) overlap, %zu elements copied", errname(C.ret), g_h.count, dm, r_lo, r_hi, k);
+            snprintf(what, sizeof what, "%s does not report overlapping objects: %s", d->name, obs); witness_ovl(d, o, idx, obs); report("C05", key, what, g_wit);
+        }
+    }
     if (!want("C07")) return;
     int exact = success && memcmp(D, wD, cmp_b) == 0;
     /* "report the overlap error with dest cleared": all dmax elements for ESOVRLP in the default build (C04's late-failure
